@@ -485,12 +485,12 @@ func c17Deadline(p *load.Program, r *oblig.Report) {
 		switch an.RefFuncName(call.Call.StaticCallee()) {
 		case "doRequest", "waitResponse":
 			n++
-			if call.Call.Args[1] != ssa.Value(dParam) {
+			if an.ParamSource(call.Call.Args[1]) != ssa.Value(dParam) {
 				okAll = false
 			}
 		case "unsetConnReadDeadline":
 			n++
-			if call.Call.Args[0] != ssa.Value(dParam) {
+			if an.ParamSource(call.Call.Args[0]) != ssa.Value(dParam) {
 				okAll = false
 			}
 		}
